@@ -83,7 +83,10 @@ ASSUMPTIONS = [
 # 'group' / 'basegroup': PEP 654 exception groups (one exception *object*
 # like any other: identity, traceback and the predicate's verdict concern the
 # group, never its members)
-KINDS = ('plain', 'args', 'chained', 'retb', 'base', 'group', 'basegroup')
+# 'falsy': an exception object that is False in a boolean context (an empty
+# aggregate error with __len__ 0): `if not value` is not `value is None`
+KINDS = ('plain', 'args', 'chained', 'retb', 'base', 'group', 'basegroup',
+         'falsy')
 
 
 # --------------------------------------------------------------------------
@@ -98,6 +101,13 @@ class NeedsArgs(Exception):
         super().__init__(a, b)
         self.a = a
         self.b = b
+
+
+class EmptyAggregate(Exception):
+    """an error collection that happens to be empty: falsy, len() == 0"""
+
+    def __len__(self):
+        return 0
 
 
 class Interrupt(BaseException):
@@ -153,6 +163,10 @@ def _l3(kind):
         raise e
     if kind == 'base':
         e = Interrupt('stop')
+        LAST.append(e)
+        raise e
+    if kind == 'falsy':
+        e = EmptyAggregate('nothing inside')
         LAST.append(e)
         raise e
     if kind == 'group':
@@ -462,7 +476,7 @@ def _run_body(env, ctx, body, path, exc_id):
             try:
                 raise _make_inner(env, op[1], exc_id)
             except (InnerError, PlainError, NeedsArgs, Interrupt,
-                    InnerNeedsArgs, BaseExceptionGroup):
+                    InnerNeedsArgs, BaseExceptionGroup, EmptyAggregate):
                 pass
         elif k == 'set':
             ctx.reraise = bool(op[1])
@@ -1086,7 +1100,8 @@ def _default_logger_case(excutils, h, case, sub):
         name = {'plain': 'PlainError', 'args': 'NeedsArgs',
                 'chained': 'PlainError', 'retb': 'PlainError',
                 'base': 'Interrupt', 'group': 'ExceptionGroup',
-                'basegroup': 'BaseExceptionGroup'}[case['kind']]
+                'basegroup': 'BaseExceptionGroup',
+                'falsy': 'EmptyAggregate'}[case['kind']]
         if name not in text:
             raise Violation(sub, 'log text does not mention the dropped %s: '
                             '%s' % (name, text[:200]), case)
@@ -1111,7 +1126,8 @@ _CONST = {'one': 1, 'str': 'yes', 'list': [0], 'zero': 0, 'empty': '',
           'None': None, 'emptylist': []}
 _KIND_CLASS = {'plain': PlainError, 'args': NeedsArgs, 'chained': PlainError,
                'retb': PlainError, 'base': Interrupt,
-               'group': ExceptionGroup, 'basegroup': BaseExceptionGroup}
+               'group': ExceptionGroup, 'basegroup': BaseExceptionGroup,
+               'falsy': EmptyAggregate}
 
 
 def _pred_truth(spec, kind):
